@@ -8,7 +8,7 @@ from asyncfix.errors import FIXError
 
 from .common import FExecType, FOrdSide, FOrdStatus, FOrdType
 
-RE_CLORD_ROOT = re.compile(r"^(.+)--(\d+)\Z", re.DOTALL)
+RE_CLORD_ROOT = re.compile(r"^(.+)--([0-9]+)\Z", re.DOTALL)
 
 
 class FIXNewOrderSingle:
